@@ -728,6 +728,12 @@ var declForms = []string{
 	"(for [(def i 0) (< i 3) (def i (+ i 1))] (let [z i] (and (== z 1) (continue) 1)))",
 	"(for [(def i 0) (< i 3) (def i (+ i 1))] (let [z i] (or (< z 1) (break) 1)))",
 	"(defn lt%d [n] (let [m (lt2%d n)] m)) (defn lt2%d [n] (+ n 1)) (lt%d 3)",
+	// base-type conversions in statement position; lazy formals in tail self-calls with literal / computed arguments
+	"(int64 3.7) (int 2.5) (float64 3) (uint8 7.9) (int32 1.5) (int64 4) (float32 1) (byte 65.2)",
+	"(def cv%d (int64 9.9)) (+ cv%d (int 1.2))",
+	"(defn lq%d [#x n] (cond (<= n 0) 0 (lq%d 5 (- n 1)))) (lq%d 1 3)",
+	"(defn lr%d [n #x] (cond (<= n 0) (force #x) (lr%d (- n 1) 7))) (lr%d 3 (+ 1 1))",
+	"(defn ls%d [#x #y n] (cond (<= n 0) 1 (ls%d \"s\" [1 2] (- n 1)))) (ls%d 1 2 2)",
 	// tail self-calls whose arguments are array literals / templates; body-less multi-return func; selector assignment in loops and arguments
 	"(defn ta%d [n acc] (cond (<= n 0) acc (ta%d (- n 1) [n 1]))) (ta%d 3 0)",
 	"(defn tq%d [n acc] (cond (<= n 0) acc (tq%d (- n 1) ^(a ~n)))) (tq%d 3 0)",
